@@ -192,7 +192,13 @@ class Enumerated(Type):
             }
 
     def encode(self, data, _separator, _indent):
-        return self.data_to_value[data]
+        try:
+            return self.data_to_value[data]
+        except KeyError:
+            raise EncodeError(
+                "Expected enumeration value {}, but got '{}'.".format(
+                    format_or(sorted(list(self.data_to_value))),
+                    data))
 
 
 class Sequence(MembersType):
